@@ -29,5 +29,6 @@ theorem Allocates.callPure (name : String) (args : List (String × RVal)) (div0 
   split at h <;> first
     | (exfalso; simp [mutators] at hn; done)
     | (injection h with h; subst h; alloc!)
+    | (exact Allocates.callDate _ _ _ _ h)
     | (cases h)
 end Ckl
